@@ -342,8 +342,16 @@ FUT = models.opaque_type('Future')
 FUT.identity = True
 
 
-def _load_region(stmt):
-    return isinstance(stmt, _ast.AsyncFor)
+def _load_region_pred():
+    """everything after the nested loader function: the listing, the job loop and the result loop"""
+    seen = {'def': False}
+
+    def pred(stmt):
+        if isinstance(stmt, (_ast.FunctionDef, _ast.AsyncFunctionDef)):
+            seen['def'] = True
+            return False
+        return seen['def']
+    return pred
 
 
 def load_outer_setup(b):
@@ -385,7 +393,9 @@ def load_outer_setup(b):
         st.assume(m >= 0)
         yield st, IterSpec(m, lambda k: SV(FUT, done(k)))
 
-    b.bind('utils', Obj('utils', as_completed=Model('as_completed', as_completed)))
+    ut = Obj('utils', as_completed=Model('as_completed', as_completed))
+    ut._lenient = True
+    b.bind('utils', ut)
 
     def on_await(interp, st, v):
         bad = st.copy()
@@ -394,6 +404,13 @@ def load_outer_setup(b):
         yield st, SV(Opt(shared.BODY), result(v.z))
 
     FUT.on_await = on_await
+
+
+def _loop_var(res, loop, default):
+    """name of the loop's own variable in the CODE (sidecars must not depend on what the code calls it)"""
+    node = getattr(res.interp, 'loop_nodes', {}).get(loop)
+    t = getattr(node, 'target', None)
+    return t.id if isinstance(t, _ast.Name) else default
 
 
 def load_outer_post(prop):
@@ -407,7 +424,13 @@ def load_outer_post(prop):
             evs = p.st.events
             start = [i for i, e in enumerate(evs) if e.kind == 'loop_body' and e.data.get('loop') == 'AsyncFor#1'][-1]
             it = evs[start:]
-            path = p.st.lookup('path')
+            path = p.st.lookup(_loop_var(res, 'AsyncFor#1', 'path'))
+            if not isinstance(path, SV):
+                # the job loop does not walk what the backend lists (e.g. paths taken from somewhere else)
+                res.oblige(p, f'{prop}.load_outer.one_job_per_listed_path', z3.BoolVal(False))
+                continue
+            lst = [e for e in evs if e.kind == 'listing']
+            walked = p.st.ghost.get('$iter_AsyncFor#1')
             subs = [e for e in it if e.kind == 'submit']
             stores = [e for e in it if e.kind == 'dict_store']
             ok = (len(subs) == 1 and subs[0].data['executor'] is b.st.lookup('loader') and subs[0].data['fn'] is b.st.lookup('_download_snapshot')
@@ -432,7 +455,7 @@ def load_outer_post(prop):
             evs = p.st.events
             start = [i for i, e in enumerate(evs) if e.kind == 'loop_body' and e.data.get('loop') == 'AsyncFor#2'][-1]
             it = evs[start:]
-            task = p.st.lookup('task')
+            task = p.st.lookup(_loop_var(res, 'AsyncFor#2', 'task'))
             r = b.result(task.z)
             ys = [e for e in it if e.kind == 'yield']
             failed = [e for e in it if e.kind == 'job_failed']
@@ -463,7 +486,7 @@ def load_outer_unit(prop):
     mods = [('heap', DC, 'has'), ('heap', DC, 'val'), ('heap', DC, 'n'), ('heap', DC, 'order')]
     return Unit(f'{prop}.load_snapshots_outer', REPO_PY, 'Repository._load_snapshots', load_outer_setup, load_outer_post(prop),
                 loops={'AsyncFor#1': LoopSpec(t, modifies=mods, name='AsyncFor#1'), 'AsyncFor#2': LoopSpec(t, modifies=[], name='AsyncFor#2')},
-                stmt=_load_region, prop=prop)
+                stmt=_load_region_pred(), prop=prop)
 
 
 # ------------------------------------------------------------------ utils.as_completed
